@@ -165,6 +165,7 @@ func c06Body(cfg c06Cfg, sc c06Scn, res *string) func(x *sched.Exec) {
 		e := &c06Exp{x: x, max: cfg.b, faults: cfg.faults, seen: map[string]int{}, lastSeq: map[byte]int{}}
 		bp := NewBatchProcessor(e, WithMaxQueueSize(cfg.q), WithExportMaxBatchSize(cfg.b), WithExportBufferSize(cfg.buf))
 		emittedAt := map[string]int{}
+		firstShutdownAt, shutdownCalls := -1, 0
 		var results []string
 		checkFlush := func(what string, calledAt int, err error) {
 			results = append(results, fmt.Sprintf("%s=%v", what, err != nil))
@@ -173,9 +174,20 @@ func c06Body(cfg c06Cfg, sc c06Scn, res *string) func(x *sched.Exec) {
 			}
 			var missing []string
 			for id, at := range emittedAt {
+				// a record whose Emit had not returned before the first Shutdown call is telemetry
+				// "after shutdown": the processor may legitimately ignore it
+				if firstShutdownAt >= 0 && at >= firstShutdownAt {
+					continue
+				}
 				if at < calledAt && e.seen[id] == 0 {
 					missing = append(missing, id)
 				}
+			}
+			if what == "Shutdown" && shutdownCalls > 1 {
+				what = "repeated Shutdown while an earlier Shutdown had not completed"
+			}
+			if what == "ForceFlush" && firstShutdownAt >= 0 {
+				what = "ForceFlush overlapping or following a Shutdown call"
 			}
 			sort.Strings(missing)
 			dropped := int(logged + bp.q.dropped.Peek())
@@ -207,6 +219,10 @@ func c06Body(cfg c06Cfg, sc c06Scn, res *string) func(x *sched.Exec) {
 				checkFlush("ForceFlush", at, bp.ForceFlush(ctx))
 			case op == "S":
 				at := x.Step()
+				if firstShutdownAt < 0 {
+					firstShutdownAt = at
+				}
+				shutdownCalls++
 				err := bp.Shutdown(context.Background())
 				checkFlush("Shutdown", at, err)
 				if err == nil {
@@ -219,6 +235,10 @@ func c06Body(cfg c06Cfg, sc c06Scn, res *string) func(x *sched.Exec) {
 				ctx, cancel := vctx.WithCancel(context.Background())
 				sched.Go(cancel)
 				at := x.Step()
+				if firstShutdownAt < 0 {
+					firstShutdownAt = at
+				}
+				shutdownCalls++
 				err := bp.Shutdown(ctx)
 				checkFlush("Shutdown", at, err)
 				if err == nil {
